@@ -79,7 +79,16 @@ def snap(x):
         return ("T", rawtensor(x), rank_index_view(x))
     if isinstance(x, Fiber):
         ra = x.getRankAttrs()
-        return ("F", rawtree(x), x._active_range, (freeze(ra._id), freeze(ra._shape), ra._fmt, repr(ra._default)))
+        owners = []
+
+        def _own(f):
+            owners.append(id(f.getOwner()) if f.getOwner() is not None else None)
+            for p_ in f.payloads:
+                if isinstance(p_, Fiber):
+                    _own(p_)
+        _own(x)
+        return ("F", rawtree(x), x._active_range, (freeze(ra._id), freeze(ra._shape), ra._fmt, repr(ra._default)),
+                tuple(owners))
     if isinstance(x, Payload):
         return ("P", x.value)
     return ("?", repr(x))
@@ -109,6 +118,9 @@ def _ops_tensor(depth):
         "flatten-unflatten": lambda T: T.flattenRanks().unflattenRanks(),
         "unflatten-of-flat": lambda T: _unflat_only(T),
         "fiber-unflatten-of-flat": lambda T: _funflat_only(T),
+        # a fiber whose top is unowned while the fibers below it belong to ranks (a fiber-level split at the leaf
+        # rank): copying it may not detach those owners
+        "copy-noowner-of-fiber-split": lambda T: _copy_of_split(T, last),
         # second transform of an already transformed operand (its rank ids / shapes are lists and tuples)
         "flatten-of-flat": lambda T: _second(T, lambda F: F.flattenRanks()),
         "merge-of-flat": lambda T: _second(T, lambda F: F.mergeRanks(coord_style="absolute")),
@@ -164,6 +176,14 @@ def _funflat_only(T):
     return h
 
 
+def _copy_of_split(T, last):
+    h = _Holder()
+    h.operand = T.getRoot().splitUniform(1, depth=last)
+    h.before = snap(h.operand)
+    h.result = h.operand.copy(preserve_owner=False)
+    return h
+
+
 def _second(T, op, first=None):
     """`op` applied to an already transformed tensor F = first(T) (default: flatten)."""
     F = first(T) if first else T.flattenRanks()
@@ -177,12 +197,12 @@ def _second(T, op, first=None):
 NEEDS_CONTENT = ("fiber-swap", "fiber-flatten", "fiber-merge", "swap", "flatten", "flatten-linear", "flatten-pair",
                  "merge-absolute", "merge-relative", "flatten-unflatten", "unflatten-of-flat", "fiber-unflatten-of-flat",
                  "flatten-of-flat",
-                 "merge-of-flat", "swizzle-of-flat", "flatten-of-split") + (
+                 "merge-of-flat", "swizzle-of-flat", "flatten-of-split", "copy-noowner-of-fiber-split") + (
     "flatten-d1", "flatten-d1-linear", "merge-d1-absolute", "merge-d1-relative", "swap-d1", "fiber-flatten-d1",
     "fiber-merge-d1", "fiber-swap-d1")
 D1 = ("flatten-d1", "flatten-d1-linear", "merge-d1-absolute", "merge-d1-relative", "swap-d1", "fiber-flatten-d1",
       "fiber-merge-d1", "fiber-swap-d1")
-DEPTH3_ONLY = ("flatten-of-flat", "merge-of-flat", "swizzle-of-flat") + D1
+DEPTH3_ONLY = ("flatten-of-flat", "merge-of-flat", "swizzle-of-flat", "copy-noowner-of-fiber-split") + D1
 
 
 def _leaf_ops():
